@@ -183,3 +183,45 @@ twin("C06-T1", "C06", "sf = par.scale_factor local in the aggregation store", M,
 twin("C06-T2", "C06", "scalar skip test as not(t < lo or t > hi)", M, "Parameter.update", "if (self.t[ti] >= self.skip_function[0]) and (self.t[ti] <= self.skip_function[1]):", "if not (self.t[ti] < self.skip_function[0] or self.t[ti] > self.skip_function[1]):")
 twin("C06-T3", "C06", "chained comparison in the scalar skip test", M, "Parameter.update", "if (self.t[ti] >= self.skip_function[0]) and (self.t[ti] <= self.skip_function[1]):", "if self.skip_function[0] <= self.t[ti] <= self.skip_function[1]:")
 twin("C06-T4", "C06", "constrain via a conditional index", M, "Model.update_pars", "                if par.derivative and ti < len(self.t) - 1:\n                    # If derivative parameter, then perform an Euler forward step before constraining\n                    par[ti + 1] = par[ti] + par._dx * self.dt\n                    par.constrain(ti + 1)\n                else:\n                    par.constrain(ti)", "                k = ti\n                if par.derivative and ti < len(self.t) - 1:\n                    par[ti + 1] = par[ti] + par._dx * self.dt\n                    k = ti + 1\n                par.constrain(k)")
+
+# =============================================================================================== C07
+mutant("C07-M1", "C07", "R07a", "negativity guard deleted", M, "Population.initialize_compartments", "        elif np.any(np.less(x, -model_settings[\"tolerance\"])):\n            # Halt for any negative popsizes\n            raise BadInitialization(f\"Negative initial popsizes:\\n{error_msg}\")\n", "")
+mutant("C07-M2", "C07", "R07a", "one guard raises ModelError", M, "Population.initialize_compartments", "raise BadInitialization(f\"Characteristics failed to meet tolerances\\n{error_msg}\")", "raise ModelError(f\"Characteristics failed to meet tolerances\\n{error_msg}\")")
+mutant(
+    "C07-M3",
+    "C07",
+    "R07a",
+    "insertion loop hoisted above the guard chain",
+    edits=[
+        dict(file=M, func="Population.initialize_compartments", old="        # Otherwise, insert the values\n        for i, c in enumerate(comps):\n            c[0] = max(0.0, x[i])", new="        pass"),
+        dict(file=M, func="Population.initialize_compartments", old="        if residual > model_settings[\"tolerance\"]:\n            # Halt", new="        for i, c in enumerate(comps):\n            c[0] = max(0.0, x[i])\n        if residual > model_settings[\"tolerance\"]:\n            # Halt"),
+    ],
+)
+mutant("C07-M4", "C07", "R07d", "Characteristic.update skips the first include", M, "Characteristic.update", "        for comp in self.includes:\n            self._vals[ti] += comp[ti]", "        for comp in self.includes[1:]:\n            self._vals[ti] += comp[ti]")
+mutant("C07-M5", "C07", "R07a", "different tolerance key in one guard", M, "Population.initialize_compartments", "        if residual > model_settings[\"tolerance\"]:", "        if residual > model_settings[\"residual_tolerance\"]:")
+mutant("C07-M6", "C07", "R07a", "residual guard deleted", M, "Population.initialize_compartments", "        if residual > model_settings[\"tolerance\"]:\n            # Halt for an unsatisfactory overall solution\n            raise BadInitialization(\"Global residual was %g which is unacceptably large (should be < %g)\\n%s\" % (residual, model_settings[\"tolerance\"], error_msg))\n        elif np.any(", "        if np.any(")
+mutant("C07-M7", "C07", "R07b", "saved initialisation applied but the solve still runs", M, "Population.initialize_compartments", "            parset.apply_initialization(self, framework)\n            return\n", "            parset.apply_initialization(self, framework)\n")
+mutant("C07-M8", "C07", "R07d", "Characteristic.vals divides everywhere", M, "Characteristic.vals", "vals[denom > 0] /= denom[denom > 0]", "vals /= denom")
+mutant("C07-M9", "C07", "R07a", "mismatch flag never set", M, "Population.initialize_compartments", "                characteristic_tolerence_failed = True\n", "                pass\n")
+twin("C07-T1", "C07", "elif chain -> independent if ... raise", M, "Population.initialize_compartments", "        elif np.any(np.less(x, -model_settings[\"tolerance\"])):", "        if np.any(np.less(x, -model_settings[\"tolerance\"])):")
+twin("C07-T3", "C07", "insertion via np.maximum", M, "Population.initialize_compartments", "c[0] = max(0.0, x[i])", "c[0] = max(x[i], 0.0)")
+
+# =============================================================================================== C08
+U = "atomica/utils.py"
+PA = "atomica/parameters.py"
+mutant("C08-M1", "C08", "R08a", "Model.__init__ keeps the caller's progset", M, "Model.__init__", "self.progset = sc.dcp(progset)", "self.progset = progset")
+mutant("C08-M2", "C08", "R08b", "build writes cascade_par.y_factor", M, "Model.build", "                par.scale_factor = cascade_par.meta_y_factor  # Set meta", "                cascade_par.y_factor[par.pop.name] = cascade_par.y_factor.get(par.pop.name, 1.0)\n                par.scale_factor = cascade_par.meta_y_factor  # Set meta")
+mutant("C08-M3", "C08", "R08b", "TimeSeries.interpolate sorts self.t in place", U, "TimeSeries.interpolate", "        t2 = sc.promotetoarray(t2)", "        self.t.sort()\n        t2 = sc.promotetoarray(t2)")
+mutant("C08-M4", "C08", "R08e", "Link.relink forgets dest", M, "Link.relink", "        self.dest = objs[self.dest]", "        pass")
+mutant("C08-M5", "C08", "R08c", "module-level dict written from update_pars", M, "Model.update_pars", "        ti = self._t_index\n", "        ti = self._t_index\n        model_settings[\"last_ti\"] = ti\n")
+mutant("C08-M6", "C08", "R08d", "float accumulation over a set in update_links", M, "Model.update_links", "        ti = self._t_index\n", "        ti = self._t_index\n        acc = 0.0\n        for nm in set(p.name for p in self._exec_order[\"transition_pars\"]):\n            acc += len(nm) * 0.1\n")
+mutant("C08-M7", "C08", "R08e", "__deepcopy__ without relinking the original", M, "Model.__deepcopy__", "        d = sc.dcp(self.__dict__)\n        self.relink()\n", "        d = sc.dcp(self.__dict__)\n")
+mutant("C08-M8", "C08", "R08b", "Initialization.apply writes parset y-factors", PA, "Initialization.apply", "        for comp in pop.comps:", "        if parset is not None:\n            for par in parset.pars.values():\n                par.meta_y_factor = 1.0\n        for comp in pop.comps:")
+mutant("C08-M9", "C08", "R08c", "np.random jitter in resolve_outflows", M, "Compartment.resolve_outflows", "        n = rescale * self.vals[ti]", "        n = rescale * self.vals[ti] * (1 + 0 * np.random.rand())")
+mutant("C08-M10", "C08", "R08b", "get_alloc scales the program's spend data in place", "atomica/programs.py", "ProgramSet.get_alloc", "        tvec = sc.promotetoarray(tvec)", "        tvec = sc.promotetoarray(tvec)\n        for prog in self.programs.values():\n            prog.spend_data.vals.sort()")
+mutant("C08-M11", "C08", "R08e", "Population.relink does not rebuild par_lookup", M, "Population.relink", "        self.par_lookup = {par.name: par for par in self.pars}\n", "")
+mutant("C08-M12", "C08", "R08b", "process writes the settings object it was built from", M, "Model.__init__", "        self.dt = settings.sim_dt  #: Simulation time step", "        self.dt = settings.sim_dt\n        settings._sim_start = self.t[0]")
+twin("C08-T1", "C08", "copy.deepcopy instead of sc.dcp", M, "Model.__init__", "self.progset = sc.dcp(progset)", "self.progset = copy.deepcopy(progset)")
+twin("C08-T2", "C08", "read-only alias of parset.pars", M, "Model.build", "            cascade_par = parset.pars[par_name]", "            p_all = parset.pars\n            cascade_par = p_all[par_name]")
+twin("C08-T3", "C08", "sorted(set(...)) iteration", M, "Model.update_links", "        ti = self._t_index\n", "        ti = self._t_index\n        acc = 0.0\n        for nm in sorted(set(p.name for p in self._exec_order[\"transition_pars\"])):\n            acc += len(nm) * 0.1\n")
+twin("C08-T4", "C08", "local dict named like nothing global", M, "Model.update_pars", "        ti = self._t_index\n", "        ti = self._t_index\n        scratch = dict()\n        scratch[\"last_ti\"] = ti\n")
